@@ -95,6 +95,8 @@ def classify(c1: str, kind: str, pipeline: str, second: str | None = None) -> st
                 return "C01:cr-in-string-through-file"
             if kind == "not-idempotent" and pred is not None and second in (pred, pred + "\n"):
                 return "C01:cr-in-string-through-file"
+    if kind == "not-idempotent" and second is not None and _comment_moves_into_zone_only_block(c1, second):
+        return "C01:comment-after-zone-only-block"
     if kind == "not-idempotent" and pipeline == "write-changes" and second is not None:
         a, b = c1.split("\n"), second.split("\n")
         if len(a) == len(b) and [x.strip() for x in a] == [x.strip() for x in b] and all(x.strip().startswith("//") for x, y in zip(a, b) if x != y):
@@ -115,6 +117,26 @@ def classify(c1: str, kind: str, pipeline: str, second: str | None = None) -> st
         if ok and removed and all(x.strip().startswith("//") for x in removed):
             return "C01:comment-behind-empty-container-after-changes-delete"
     return f"C01:unlisted:{pipeline}:{kind}"
+
+
+def _comment_moves_into_zone_only_block(c1: str, second: str) -> bool:
+    """The two texts differ only in the indentation of comment lines, and every such line follows (through comment lines
+    only) the closing fence of a literal zone that is indented deeper than the comment is in c1."""
+    a, b = c1.split("\n"), second.split("\n")
+    if len(a) != len(b) or [x.strip() for x in a] != [x.strip() for x in b]:
+        return False
+    diffs = [i for i, (x, y) in enumerate(zip(a, b)) if x != y]
+    if not diffs or not all(a[i].strip().startswith("//") for i in diffs):
+        return False
+    for i in diffs:
+        j = i - 1
+        while j >= 0 and a[j].strip().startswith("//"):
+            j -= 1
+        if j < 0 or not re.fullmatch(r" *`{3,}", a[j]):
+            return False
+        if len(a[j]) - len(a[j].lstrip(" ")) <= len(a[i]) - len(a[i].lstrip(" ")):
+            return False
+    return True
 
 
 def check_canonical(c1: str, pipeline: str, origin: str):
@@ -339,11 +361,16 @@ def check_case(case) -> list[Failure]:
     if "tokens" in case:
         res = api_roundtrip(_seq_text(tuple(case["tokens"]), case["spaced"], case.get("bracket", False)), "tokens")
         return [Failure(res[1], case, res[2])] if res[0] == "fail" else []
+    if "text" in case:
+        res = api_roundtrip(case["text"], "api")
+        return [Failure(res[1], case, res[2])] if res[0] == "fail" else []
     text, info = docprop.render_case(case["doc"], case["sp"])
     return [Failure(s, case, d) for s, d in oracle(case["doc"], case["sp"], text, info, with_tools=True)]
 
 
 def shrink_candidates(case):
+    if "text" in case:
+        return
     if "tokens" in case:
         t = case["tokens"]
         for i in range(len(t)):
